@@ -27,7 +27,8 @@ RULE = ('send: 1-5 method calls through DBusClientConnection.callRemote on a UNI
         'chunkings. Non-trivial = >=2 descriptor-carrying messages with a descriptor '
         'of a later message queued before an earlier message completes; distinct = distinct case JSON. send_again: one prepared '
         'message object sent 2-3 times (one or two connections): every transmission carries its descriptors. bad_tail: a call '
-        'refused because an argument AFTER its descriptors cannot be encoded leaves nothing behind.')
+        'refused because an argument AFTER its descriptors cannot be encoded leaves nothing behind. Descriptor numbers start at 0, 1, '
+        '3 or higher.')
 ASSUMPTIONS = ['the transport double stands in for the kernel: descriptors are delivered through '
                'fileDescriptorReceived in sending order and never after the last byte of their message',
                'only method calls carry descriptors (the only path txdbus offers)']
@@ -46,7 +47,8 @@ def fd_args(draw, variants=False):
     sig = ''
     trees = []
     nh = 0
-    tok = draw(st.integers(100, 60000))
+    # descriptor numbers as a process sees them: 0 (a daemon that closed its standard streams gets it first), small, large
+    tok = draw(st.one_of(st.sampled_from([0, 0, 1, 3]), st.integers(100, 60000)))
     for t in shapes:
         if nh >= 3 and ('h' in t or t in ('v', 'a{sv}')):
             t = 'i'
@@ -446,7 +448,9 @@ def recv_msg(draw, tok_base):
 @st.composite
 def recv_case(draw, tier):
     msgs = []
-    base = 1000
+    # descriptor numbers as the receiving process sees them: from 0 (a daemon that closed its standard streams is handed
+    # 0, 1, 2 first) or from somewhere higher up
+    base = draw(st.sampled_from([0, 0, 3, 1000]))
     for _ in range(draw(st.integers(1, 6))):
         m, nh = draw(recv_msg(base))
         base += nh
@@ -471,7 +475,7 @@ def enum_recv(tier):
     for n in (1, 2, 3):
         for counts in itertools.product((0, 1, 2), repeat=n):
             msgs = []
-            base = 500
+            base = 0 if n % 2 else 500
             for mi, c in enumerate(counts):
                 sig = 'h' * c + 'i'
                 trees = [base + j for j in range(c)] + [mi]
